@@ -39,7 +39,8 @@ pub struct Opts {
 
 #[derive(serde::Deserialize, Debug)]
 pub struct SolstatToml {
-    pub path: String,
+    //Optional: without it the `--path` flag or the default `./contracts` directory is used
+    pub path: Option<String>,
     pub optimizations: Vec<String>,
     pub vulnerabilities: Vec<String>,
     pub qa: Vec<String>,
@@ -74,7 +75,7 @@ impl Opts {
                     .iter()
                     .map(|f| str_to_qa(f))
                     .collect::<Vec<QualityAssurance>>(),
-                Some(solstat_toml.path),
+                solstat_toml.path,
             )
         } else {
             (
